@@ -4,10 +4,13 @@
   The `decide` theorems range over the lookup tables that gen/extract_tables.py regenerates from the CURRENT headers
   (lean/UVerif/Generated/FastTables.lean): if a table changes, this module no longer builds (the driver library still does).
 
-  NOT proved in Lean: the 65 536-pair statements "fast posit<8,0|8,1|8,2> + − × ÷ = generic" (≈1 min of kernel time per
-  operator; only kernel evaluation is used, no compiled evaluation) — they are established by the exhaustive transcripts of every run; and the general
-  statements for the 16/32-bit word algorithms, which are false in places (counterexamples below) and otherwise only
-  covered by the structured transcripts.
+  Word-level routines: `posit8_mulp8` (fast posit<8,0>::operator*= and the pure-C multiplication) is proved equal to the
+  generic `Posit.mul 8 0` on every pair of encodings (`C11_fast8_0_mul_eq_generic`, Lemmas/FastMul8.lean: sign reduction of
+  both sides by argument — the generic side for every nbits, es — and the 127 × 127 magnitude products by kernel evaluation).
+  NOT proved in Lean: the other 65 536-pair statements "fast posit<8,0|8,2> + − ÷ = generic" and × of <8,2> (≈3–5 min of
+  kernel time per operator; no compiled evaluation is used) — they are established by the exhaustive transcripts of every
+  run; and the general statements for the 16/32-bit word algorithms, which are false in places (counterexamples below) and
+  otherwise only covered by the structured transcripts.
 -/
 import UVerif.Model.Posit
 import UVerif.Model.PositConvFP
@@ -16,6 +19,7 @@ import UVerif.Model.PositC
 import UVerif.Driver.Fast
 import UVerifProofs.Lemmas.Fast
 import UVerifProofs.Lemmas.FastConv
+import UVerifProofs.Lemmas.FastMul8
 
 open UVerif UVerif.Posit UVerif.Fast UVerif.Generated UVerif.Driver
 
@@ -152,6 +156,29 @@ theorem C11_fast_convert_counterexample_3_0 : assignLongLong_3_0 0x100000000 = 0
 theorem C11_fast_convert_counterexample_2_0 : assignFP_2_0 8 23 0x3dcccccd = 0 ∧ fromFloat 2 0 0x3dcccccd = 1 := by decide +kernel
 /-- posit<2,0>::to_double reads NaR as −infinity -/
 theorem C11_fast_convert_counterexample_2_0_nar : toDouble_2_0 2 = 0xfff0000000000000 ∧ toDouble 2 0 2 = none := by decide +kernel
+
+/-! ### a word-level routine: posit8_mulp8 = generic multiplication (every pair of posit<8,0> encodings) -/
+
+/-- generic multiplication reduces to the magnitudes of its operands, two's-complemented when the signs differ — for every
+    nbits ≥ 2 and es (from C01_mul, C01_abs_exact and the uniqueness of the Standard's rounding) -/
+theorem C11_generic_mul_sign_abs (n es a b : Nat) (hn : 2 ≤ n) (ha : a < 2 ^ n) (hb : b < 2 ^ n)
+    (ha0 : a ≠ 0) (hb0 : b ≠ 0) (han : a ≠ 2 ^ (n - 1)) (hbn : b ≠ 2 ^ (n - 1)) :
+    Posit.mul n es a b =
+      if decide (2 ^ (n - 1) ≤ a) != decide (2 ^ (n - 1) ≤ b)
+      then twosComp n (Posit.mul n es (Posit.abs n a) (Posit.abs n b))
+      else Posit.mul n es (Posit.abs n a) (Posit.abs n b) :=
+  Posit.mul_sign_abs n es a b hn ha hb ha0 hb0 han hbn
+example : Posit.mul 16 1 0xc800 0x5000 = twosComp 16 (Posit.mul 16 1 0x3800 0x5000) :=
+  C11_generic_mul_sign_abs 16 1 0xc800 0x5000 (by decide) (by decide) (by decide) (by decide) (by decide) (by decide) (by decide)
+
+/-- `posit8_mulp8` — the integer-only routine behind fast `posit<8,0>::operator*=` (posit_8_0.hpp calls it) and the pure-C
+    posit8 API: decode_regime by shifting, 8×8→16-bit fraction product, carry normalisation, `posit8_round` with
+    bitNPlusOne / moreBits — returns exactly the generic `posit<8,0>` product for every pair of encodings.
+    Structure of the proof: both sides reduce to magnitudes by argument; the 127 × 127 magnitude table is checked by kernel
+    evaluation (Lemmas/FastMul8.lean, 8 chunks); no argument about decode_regime / posit8_round themselves. -/
+theorem C11_fast8_0_mul_eq_generic (a b : Nat) (ha : a < 256) (hb : b < 256) : PositC.mulp8 a b = Posit.mul 8 0 a b :=
+  PositC.mulp8_eq_generic a b ha hb
+example : PositC.mulp8 0x5c 0xa3 = Posit.mul 8 0 0x5c 0xa3 := C11_fast8_0_mul_eq_generic _ _ (by decide) (by decide)
 
 /-! ### posit<32,2>::operator*= (new finding): `round_mul` forgets the low exponent bit when the regime fills the word -/
 
